@@ -1,7 +1,7 @@
 (* MODEL of the HTTP/2 message layer of huginn-net-http:
    src/http2_parser.rs  `parse_request`, `parse_response`, `find_primary_stream`, `build_stream`,
                         `headers_fragment`, `parse_headers_payload`, `parse_cookies_from_headers`
-                        (as they are after fixes c544740 and 15d41c9),
+                        (as they are after fixes c544740, 15d41c9 and 229155b),
    src/http2_process.rs `convert_http2_request_to_observable`, `convert_http2_response_to_observable`,
                         `convert_http2_headers_to_http_format`, `build_absent_headers_from_http2`,
                         `extract_traffic_classification`,
@@ -256,15 +256,19 @@ Record sig_header := { sh_optional : bool; sh_name : bytes; sh_value : option by
 
 Definition list_contains (l : list bytes) (x : bytes) : bool := existsb (fun y => bytes_eqb y x) l.
 
-(* convert_http2_headers_to_http_format: the LOWERCASED name is looked up in the lists as they are
-   written in huginn-net-db/src/http.rs (Vec<&str>::contains is an exact comparison) *)
+(* str::eq_ignore_ascii_case: same length and bytes equal after to_ascii_lowercase *)
+Definition eq_ignore_ascii_case (a b : bytes) : bool := bytes_eqb (ascii_lower a) (ascii_lower b).
+Definition list_any_ci (l : list bytes) (x : bytes) : bool := existsb (fun name => eq_ignore_ascii_case name x) l.
+
+(* convert_http2_headers_to_http_format (after fix 229155b): the lowercased name is compared with
+   the entries of the lists of huginn-net-db/src/http.rs by eq_ignore_ascii_case *)
 Definition headers_in_order (is_request : bool) (hs : list hhdr) : list sig_header :=
   let optional_list := if is_request then request_optional_headers else response_optional_headers in
   let skip_value_list := if is_request then request_skip_value_headers else response_skip_value_headers in
   map (fun h =>
          let lower := lower_cmp (h_name h) in
-         if list_contains optional_list lower then {| sh_optional := true; sh_name := h_name h; sh_value := None |}
-         else if list_contains skip_value_list lower then {| sh_optional := false; sh_name := h_name h; sh_value := None |}
+         if list_any_ci optional_list lower then {| sh_optional := true; sh_name := h_name h; sh_value := None |}
+         else if list_any_ci skip_value_list lower then {| sh_optional := false; sh_name := h_name h; sh_value := None |}
          else {| sh_optional := false; sh_name := h_name h; sh_value := h_value h |}) hs.
 
 (* build_absent_headers_from_http2: both sides lowercased *)
